@@ -34,6 +34,16 @@ HEADER = ('From Coq Require Import NArith List Bool. Import ListNotations.\n'
 TEXTS = ['', 'a', 'é', '€', '\U0001F600', 'a\x7f\x80\u07ff\u0800\uffff\U00010000\U0010ffff', '\ud800', 'x\udfffy', '\ud7ff\ue000',
          'key: värde\n', '- "\\U0001F600"\n', 'ключ: значение\n', '名前: 値\n']
 
+# whitespace-sensitive documents: what a block scalar keeps of its last lines, leading/trailing blank lines, common
+# indentation, tabs, CR/LF, BOM -- a source kind that "tidies" the text first reads something else
+WS_TEXTS = ['a: |\n  text\n', 'a: |\n  text\n\n\n', 'a: |+\n  text\n\n\n', 'a: |-\n  text\n\n', 'a: >\n  folded\n  text\n\n',
+            'a: >+\n  folded\n\n', '|\n  top\n', '|+\n  top\n\n', '>\n  top\n', '- |\n  item\n- |+\n  last\n\n',
+            'a: |\n  one\n   \n  two\n', 'a: |\n  one\n\t\n  two\n', 'a: |2\n    indented\n', 'a: "x\n  \n  y"\n', "a: 'x\n\n  y'\n",
+            '\n\na: 1\n', 'a: 1\n\n\n', '  a: 1\n  b: 2\n', '    - 1\n    - 2\n', '  a: |\n    text\n\n', ' a: 1\nb: 2\n',
+            'a: 1  \n', 'a: 1\t\n', '\ta: 1\n', 'a: 1\r\nb: 2\r\n', 'a: |\r\n  x\r\n\r\n', '\ufeffa: 1\n', 'a: 1\n...\n', '--- |\n  doc\n\n',
+            '---\na: 1\n...\n\n', 'x  \n', '  x', ' x ', '\n', '   \n', '"  padded  "', "'\n'", '|\n \n', 'a: |+\n\n', '? |\n  key\n: v\n',
+            'a: |\n  x\n   ', 'a: |\n  x\n  \n', 'a: >\n  x\n\n  y\n   \n']
+
 
 def outcome(f, *a):
     import yatiml
@@ -96,6 +106,14 @@ def tie(ctx, model_ok=True):
         cases = []
         for specs, tyspec, text, desc in loadcase.gen_cases(rnd, n_models, 5, hooks=True):
             cases.append((specs, tyspec, text, desc))
+        for t in WS_TEXTS:
+            cases.append(([], rnd.choice([None, 'any']), t, 'directed-whitespace'))
+        for specs, tyspec, text, desc in list(cases):
+            if rnd.random() < 0.3 and text.strip():
+                variant = rnd.choice([lambda x: '\n\n' + x, lambda x: x + '\n\n', lambda x: x.rstrip('\n') + '   \n',
+                                      lambda x: ''.join('  ' + l for l in x.splitlines(True)),
+                                      lambda x: x.rstrip('\n'), lambda x: x.replace('\n', '\r\n')])
+                cases.append((specs, tyspec, variant(text), desc + '+whitespace'))
         for t in path_like + TEXTS + dumpcase.STRINGS[:40]:
             cases.append(([], rnd.choice(['str', None, 'any']), t if t.endswith('\n') or t in path_like else t + '\n', 'directed'))
             cases.append(([], 'str', t, 'directed-raw'))
